@@ -37,7 +37,7 @@ def shards(tier, seed):
     specs = [('wide', 2, 2, ['DEFAULT', 'AMR'], 'all'), ('mid', 3, 3, ['DEFAULT'], 'all'), ('amr', 2, 2, ['AMR', 'MINI'], 'all'),
              ('narrow', 3, 4, ['DEFAULT'], 'adjacent2')]
     if not q:
-        specs += [('narrow', 3, 4, ['DEFAULT'], 'all'), ('narrow', 4, 3, ['DEFAULT', 'NOOP'], 'all'), ('amr', 3, 3, ['AMR'], 'all'),
+        specs += [('narrow', 3, 4, ['DEFAULT'], 'all'), ('narrow', 4, 3, ['DEFAULT'], 'all'), ('amr', 3, 3, ['AMR'], 'all'),
                   ('mid', 3, 4, ['DEFAULT'], 'adjacent2')]
     for pool, V, E, models, mode in specs:
         b = f'GRAPH({V},{E}) {pool} pool, orderings={mode}, every top, models={",".join(models)}'
@@ -104,7 +104,7 @@ def _roundtrip(ctx, pm, rm, name, g, top, want, label):
     if g2.top != top:
         ctx.fail(f'{label}: decoded top is not the requested top under {name}', expected=top, observed=[g2.top, s])
         return False
-    got = RI.content(g2.triples, g2.top, rm)
+    got = RI.content(g2.triples, g2.top, rm, deinvert=False)
     if got != want:
         ctx.fail(f'{label}: graph content changed by encode/decode under {name}', expected=want['triples'], observed=[got['triples'], s])
         return False
